@@ -107,7 +107,7 @@ structure St (μ : Type) where
   outs : List (Int × Int)
   inLog : List Int
 
-@[inline] def rget (r : Array Int) (i : Int) : Int := r.getD i.toNat 0
+@[inline] def rget (r : Array Int) (i : Int) : Int := if 0 ≤ i then r.getD i.toNat 0 else 0
 @[inline] def rset (r : Array Int) (i : Int) (v : Int) : Array Int :=
   if 0 ≤ i then r.setIfInBounds i.toNat v else r
 
